@@ -10,14 +10,15 @@ OBLIGATIONS += [sp(4, ["quick", "thorough"]), sp(6, ["thorough"])]
 OBLIGATIONS.append(dict(name="source_date_epoch_pure", harness="harness/C02_epoch.c", sources=["lib/util/src/source_date_epoch.c"], stubs=["stubs/vp_ctype.c"],
     defines=dict(N=4), unwind=20, tiers=["quick", "thorough"], timeout=200, reach=["done"],
     functions=["get_source_date_epoch (lib/util/src/source_date_epoch.c)"], bound="every environment string of <= 4 bytes (or unset)"))
-def be(np, tiers):
-    return dict(name="backend_write_order_np%d" % np, harness="harness/C02_backend.c", sources=["lib/sqfs/src/inode.c"], included_sources=["lib/sqfs/src/block_processor/backend.c"],
-        defines=dict(NP=np), unwind=np + 3, tiers=tiers, timeout=400, reach=["done", "fragment_block_overtaken"],
+def be(mode, np, tiers):
+    return dict(name=("io_queue_sorted_np%d" % np) if mode == 1 else "sequence_numbering_rule", harness="harness/C02_backend.c", sources=["lib/sqfs/src/inode.c"],
+        included_sources=["lib/sqfs/src/block_processor/backend.c"], defines=dict(MODE=mode, NP=np), unwind=np + 3, unwindset={"set_block_size.0": 3}, tiers=tiers, timeout=300,
+        reach=["done"] if mode == 1 else ["fragment_block_keeps_number", "numbered_at_dequeue"],
         fp_map={"dequeue": ["pool_dequeue"], "get_status": ["pool_status"], "write_data_block": ["wr_write"]},
-        functions=["dequeue_block, store_io_block, process_completed_block, release_old_block (lib/sqfs/src/block_processor/backend.c)"],
-        bound="%d finished blocks in the pool, at most one of them a fragment block carrying the oldest outstanding sequence number at a symbolic position; "
-              "start sequence number, max_backlog, block flags symbolic" % np)
-OBLIGATIONS += [be(2, ["quick", "thorough"]), be(3, ["quick", "thorough"]), be(4, ["thorough"])]
+        functions=["store_io_block (lib/sqfs/src/block_processor/backend.c)"] if mode == 1 else ["dequeue_block, store_io_block, process_completed_block (lib/sqfs/src/block_processor/backend.c)"],
+        bound=("%d blocks with arbitrary distinct sequence numbers in arbitrary arrival order" % np) if mode == 1 else
+              "one block coming back from the pool (data / fragment block / manual submission symbolic), arbitrary sequence counters and stale number in the block")
+OBLIGATIONS += [be(1, 3, ["quick", "thorough"]), be(1, 4, ["thorough"]), be(2, 2, ["quick", "thorough"])]
 FORBIDDEN = ["time", "gettimeofday", "clock_gettime", "clock", "localtime", "localtime_r", "gmtime", "gmtime_r", "mktime", "strftime", "rand", "random", "srand", "srandom", "rand_r",
              "drand48", "lrand48", "getpid", "getppid", "getuid", "geteuid", "getgid", "getegid", "setlocale", "getenv", "secure_getenv", "umask", "getcwd", "gethostname", "uname",
              "sched_getaffinity", "sysconf", "get_nprocs"]
